@@ -59,9 +59,28 @@ class Interp:
             self.ctx.assume(z3.Implies(z3.Not(sym.opt_is_none(v)), self.ref_wf_term(sym.opt_val(v).t)))
         return v
 
+    def from_any(self, val, ty):
+        """A value the engine only knows as Any / list[Any] (e.g. what tls.pull_list returns: the items produced by an
+        arbitrary item parser) stored where a precise type is declared: the typed value is UNCONSTRAINED (a fresh
+        well-formed value of the declared type; a list keeps its length).  Sound for every clause that does not depend on
+        the items' values - Python itself performs no conversion here.  (added for the TLS parsers)"""
+        if not isinstance(val, V) or val.ty == ty:
+            return val
+        tgt = ty.inner if isinstance(ty, TOpt) else ty
+        if val.ty == TAny and tgt != TAny and sym.sort_of(tgt) != z3.IntSort():
+            nv = sym.fresh(tgt, self.ctx.fresh_name("from_any"))
+        elif isinstance(val.ty, TList) and val.ty.elem == TAny and isinstance(tgt, TList) and tgt.elem != TAny:
+            arr = sym.list_arr(sym.fresh(tgt, self.ctx.fresh_name("from_any")))
+            nv = sym.list_mk(tgt.elem, sym.list_len(val), arr)
+        else:
+            return val
+        for f in sym.wf(nv):
+            self.ctx.assume(f)
+        return nv
+
     def write_field(self, ref: V, fname, val: V):
         owner, ty = self.field(ref.ty.cls, fname)
-        val = sym.coerce(val, ty)
+        val = sym.coerce(self.from_any(val, ty), ty)
         self.field_touched(owner, fname, ref.t, whole_write=val)  # dict sums (dictiter.py)
         self.heap.write(owner, fname, ty, ref.t, val.t)
 
